@@ -43,6 +43,10 @@ type (
 		Body    string      `json:"body"`
 		// response already present in the context (ResponseAdaptor ...): 0 none, 1 plain, 2 gzip
 		Resp int `json:"resp"`
+		// Sign: before the request is handled it is signed with the signer configuration found in the
+		// document under test (Validator.signature) and its first access key, so that signature
+		// verification runs to the end instead of stopping at a missing header
+		Sign bool `json:"sign"`
 		// MQTT: packet type ("connect","publish","subscribe"), client id, topic
 		MQTT   string `json:"mqtt"`
 		Client string `json:"client"`
